@@ -36,8 +36,10 @@ type Ctx struct {
 	modFuncs []*ssa.Function // all functions of the module with bodies, sorted
 
 	unresolved []string // anchors that could not be resolved
+	inlinedInto []string // reference functions that are gone and are looked at through their single caller
 	pure       map[*ssa.Function]int8
 	sites      map[*ssa.Function][]ssa.CallInstruction
+	bindParam  map[*ssa.Parameter]ssa.Value
 	stats      struct {
 		packages, functions, blocks, instrs int
 	}
@@ -217,9 +219,52 @@ func (c *Ctx) Pkg(short string) *ssa.Package {
 func (c *Ctx) Func(pkg, name string) *ssa.Function {
 	fn := c.funcQuiet(pkg, name)
 	if fn == nil {
+		// the function of the reference tree is gone: if it had exactly one caller there and
+		// that caller still exists, its body was (in all likelihood) inlined into that caller;
+		// the rule then looks at the caller. Otherwise the anchor is unresolved (undecided).
+		if heir := c.heirOf(pkg, name); heir != nil {
+			c.inlinedInto = append(c.inlinedInto, pkg+"."+name+" -> "+FnName(heir))
+			return heir
+		}
 		c.miss("func " + pkg + "." + name)
 	}
 	return fn
+}
+
+//go:embed knownedges.txt
+var knownEdgesTxt string
+
+// heirOf: the single caller (on the reference tree) of a function that no longer exists.
+func (c *Ctx) heirOf(pkg, name string) *ssa.Function {
+	// FnName form of pkg.name: try the spellings used in knownfuncs.txt
+	short := map[string]string{"": "xz", "xz": "xz", "lzma": "lzma", "cmd/gxz": "gxz", "internal/gflag": "gflag", "internal/xlog": "xlog", "internal/hash": "hash", "internal/term": "term"}[pkg]
+	var cands []string
+	if i := strings.Index(name, "."); i >= 0 {
+		cands = []string{"(*" + short + "." + name[:i] + ")." + name[i+1:], "(" + short + "." + name[:i] + ")." + name[i+1:]}
+	} else {
+		cands = []string{short + "." + name}
+	}
+	var callers []string
+	for _, l := range strings.Split(knownEdgesTxt, "\n") {
+		f := strings.Split(strings.TrimSpace(l), "\t")
+		if len(f) != 2 {
+			continue
+		}
+		for _, cd := range cands {
+			if f[0] == cd && f[1] != cd {
+				callers = append(callers, f[1])
+			}
+		}
+	}
+	if len(callers) != 1 {
+		return nil
+	}
+	for _, fn := range c.modFuncs {
+		if FnName(fn) == callers[0] {
+			return fn
+		}
+	}
+	return nil
 }
 
 func (c *Ctx) funcQuiet(pkg, name string) *ssa.Function {
@@ -481,7 +526,12 @@ func (c *Ctx) IsNew(fn *ssa.Function) bool {
 	if fn == nil || fn.Blocks == nil || fn.Synthetic != "" || !c.InModule(fn) {
 		return false
 	}
-	return !knownFuncs[FnName(fn)]
+	if knownFuncs[FnName(fn)] {
+		return false
+	}
+	// an anonymous function is new when its name is not in the table; its free variables
+	// are bound by the walker at the call
+	return true
 }
 
 // Group returns fn followed by the new helper functions it reaches through static calls
@@ -503,6 +553,13 @@ func (c *Ctx) Group(fn *ssa.Function) []*ssa.Function {
 					seen[cal] = true
 					out = append(out, cal)
 				}
+			}
+		}
+		// new closures created by the function (called through a local variable)
+		for _, af := range out[i].AnonFuncs {
+			if !seen[af] && c.IsNew(af) {
+				seen[af] = true
+				out = append(out, af)
 			}
 		}
 	}
@@ -574,9 +631,23 @@ func (c *Ctx) dom(a, b *ssa.BasicBlock, depth int) bool {
 		return true
 	}
 	if c.IsNew(a.Parent()) {
-		// a must dominate every return of its function; then it dominates what follows each call
+		// a must dominate every SUCCESS return of its function (returns with a nil-constant error,
+		// or all returns when there is no error result); then it dominates what follows each
+		// call on the paths where the caller goes on after testing the error
+		res := a.Parent().Signature.Results()
+		errIdx := -1
+		if n := res.Len(); n > 0 && isErrType(res.At(n-1).Type()) {
+			errIdx = n - 1
+		}
 		for _, rb := range a.Parent().Blocks {
-			if _, isRet := rb.Instrs[len(rb.Instrs)-1].(*ssa.Return); isRet && !a.Dominates(rb) {
+			ret, isRet := rb.Instrs[len(rb.Instrs)-1].(*ssa.Return)
+			if !isRet {
+				continue
+			}
+			if errIdx >= 0 && !isNilConst(ret.Results[errIdx]) {
+				continue
+			}
+			if !a.Dominates(rb) {
 				return false
 			}
 		}
@@ -600,6 +671,9 @@ func (c *Ctx) lookThrough(v ssa.Value) (ssa.Value, bool) {
 		if !c.IsNew(fn) {
 			return v, false
 		}
+		if b, ok := c.bindParam[x]; ok {
+			return b, true // bound by the call we looked through last
+		}
 		sites := c.callSites(fn)
 		if len(sites) != 1 {
 			return v, false
@@ -612,6 +686,7 @@ func (c *Ctx) lookThrough(v ssa.Value) (ssa.Value, bool) {
 	case *ssa.Call:
 		if cal := x.Call.StaticCallee(); cal != nil && c.IsNew(cal) && cal.Signature.Results().Len() == 1 {
 			if rv := singleReturn(cal, 0); rv != nil {
+				c.bindCall(cal, x)
 				return rv, true
 			}
 		}
@@ -619,6 +694,7 @@ func (c *Ctx) lookThrough(v ssa.Value) (ssa.Value, bool) {
 		if call, ok := x.Tuple.(*ssa.Call); ok {
 			if cal := call.Call.StaticCallee(); cal != nil && c.IsNew(cal) {
 				if rv := singleReturn(cal, x.Index); rv != nil {
+					c.bindCall(cal, call)
 					return rv, true
 				}
 			}
@@ -630,6 +706,19 @@ func (c *Ctx) lookThrough(v ssa.Value) (ssa.Value, bool) {
 // singleReturn: the one value result #idx has at the returns of fn; for a non-error result
 // of a function that also returns an error only the returns with a nil error constant count
 // (the value delivered on success).
+// bindCall remembers the arguments of the helper call a role predicate is looking through,
+// so that the helper's parameters resolve to the arguments of THAT call site.
+func (c *Ctx) bindCall(cal *ssa.Function, call *ssa.Call) {
+	if c.bindParam == nil {
+		c.bindParam = map[*ssa.Parameter]ssa.Value{}
+	}
+	for i, p := range cal.Params {
+		if i < len(call.Call.Args) {
+			c.bindParam[p] = call.Call.Args[i]
+		}
+	}
+}
+
 func singleReturn(fn *ssa.Function, idx int) ssa.Value {
 	var rv ssa.Value
 	nres := fn.Signature.Results().Len()
@@ -649,4 +738,30 @@ func singleReturn(fn *ssa.Function, idx int) ssa.Value {
 		}
 	}
 	return rv
+}
+
+// heirByFnName: fnName (FnName form) does not exist any more and had exactly one caller on
+// the reference tree, which still exists: that caller.
+func (c *Ctx) heirByFnName(fnName string) *ssa.Function {
+	for _, fn := range c.modFuncs {
+		if FnName(fn) == fnName {
+			return nil // still exists
+		}
+	}
+	var callers []string
+	for _, l := range strings.Split(knownEdgesTxt, "\n") {
+		f := strings.Split(strings.TrimSpace(l), "\t")
+		if len(f) == 2 && f[0] == fnName && f[1] != fnName {
+			callers = append(callers, f[1])
+		}
+	}
+	if len(callers) != 1 {
+		return nil
+	}
+	for _, fn := range c.modFuncs {
+		if FnName(fn) == callers[0] {
+			return fn
+		}
+	}
+	return nil
 }
